@@ -33,7 +33,8 @@ def judge(rep, recs, module='TraceGrid'):
 def run(rep):
     quick = rep.tier == 'quick'
     core.gemdat_src_first()
-    rep.rule = ('Leg M: TLC evaluates the integer lemmas for all n <= 64 (voxel index -> centre -> index) and all L <= 60, res <= L '
+    rep.rule = ('Proof: TLAPS proves BandHolds (n = L div res gives res <= L/n < 2 res for all naturals L >= res >= 1) and RoundTripHolds '
+                '(voxel -> centre -> voxel for every n and index) in spec/GridLemmas.tla. Leg M: TLC evaluates the integer lemmas for all n <= 64 (voxel index -> centre -> index) and all L <= 60, res <= L '
                 '(n = L div res gives res <= L/n < 2 res) as ASSUMEs of MC_Walker. Leg B: trajectories with samples on odd numerators over 128 '
                 '(never on a voxel edge) or on the /64 grid with power-of-two voxel counts (samples exactly on edges), 1-7 frames x 1-5 atoms, '
                 'raw coordinates shifted by whole cells, 6 cell families x 3 orientations (unequal axes), random resolution with L/res kept '
@@ -44,6 +45,11 @@ def run(rep):
                        'a sample sits on a voxel edge only when the voxel count is a power of two (edge exactly representable)']
     r = core.model_check('MC_Walker', walker_cfg(1, 1, 2, False, 'sum', ['NeverCheaper']), workers=2, timeout=600)
     rep.add_model('MC_Walker 1x1x2 (carries the C08 ASSUME lemmas RoundTrip(n<=64), ResolutionBand(L<=60))', r)
+    # the same two lemmas for ALL naturals, by the TLA+ proof system (spec/GridLemmas.tla)
+    obl, proved = core.run_tlaps('GridLemmas')
+    rep.extra['tlaps'] = {'module': 'GridLemmas', 'theorems': ['BandHolds', 'RoundTripHolds'], 'obligations': obl, 'proved': proved}
+    if proved != obl:
+        rep.violation({'kind': 'proof', 'clause': 'tlaps-obligation-failed', 'obligations': obl, 'proved': proved})
     rng = np.random.default_rng(rep.seed + 8)
     fams = list(gen.FAMILIES)
     recs = []
